@@ -293,5 +293,8 @@ def zero_rule(ctx, rule, key, site, combo, body, w, d, READD):
 def run(ctx, fb, cfg):
     lib = fb.lib
     R = "C19."
+    import fdrules
+
+    fdrules.check_operand_plumbing(ctx, lib, R + "K3.operand-plumbing", only=("plusz", "timesz"))
     check_one(ctx, lib, R + "K5K7.plusz", "PlusZ")
     check_one(ctx, lib, R + "K5K7.timesz", "TimesZ")
